@@ -18,6 +18,7 @@
 import Winter.Drv.Util
 import Winter.Model.Security
 import Winter.Gen.Security
+import Winter.Gen.ProofOpts
 
 namespace Drv.C18
 open Model.Security
@@ -113,7 +114,11 @@ def handle : List String → String
     match natList rest with
     | some [q, b, g, e, ff, fr] =>
       match Ext.ofNat? e with
-      | some e => if (Options.new q b g e ff fr).isOk then "ok" else "panic"
+      | some e' =>
+        -- the model, and `ProofOptions::new` as regenerated from air/src/options.rs on this run (tie T)
+        let m := (Options.new q b g e' ff fr).isOk
+        let gn := Gen.ProofOpts.new_ok q b g e ff fr
+        (if m then "ok" else "panic") ++ (if m == gn then "" else s!" gen={gn}")
       | none => "bad-op"
     | _ => "bad-op"
   | "optsb" :: rest =>
